@@ -10,6 +10,7 @@ from omegaconf import DictConfig
 from experimaestro.core.objects import Config
 import fasteners
 import threading
+import os
 import os.path
 from watchdog.events import FileSystemEventHandler
 from typing import Dict
@@ -93,9 +94,19 @@ class TokenFile:
             with path.open("rt") as fp:
                 count, self.uri = [line.strip() for line in fp.readlines()]
                 self.count = int(count)
+                self.ident = TokenFile._ident(fp.fileno())
         except Exception:
             logging.exception("Error while reading %s", self.path)
             raise
+
+    @staticmethod
+    def _ident(target):
+        """Identifies one token file (another one may get the same name later)"""
+        try:
+            st = os.stat(target)
+            return (st.st_ino, st.st_mtime_ns)
+        except OSError:
+            return None
 
     @staticmethod
     def create(dependency: CounterTokenDependency):
@@ -110,6 +121,7 @@ class TokenFile:
         logging.debug("Writing token file %s", path)
         with path.open("wt") as fp:
             fp.write(f"{str(count)}\n{uri}\n")
+        self.ident = TokenFile._ident(path)
         return self
 
     def delete(self):
@@ -156,7 +168,12 @@ class TokenFile:
                 # Process is None: process has finished
                 process.wait()
 
-            self.delete()
+            # The token may have been given back and taken again for the same
+            # job since we looked (same file name): look again while holding
+            # the job lock, and only remove the file that was read
+            with fasteners.InterProcessLock(lockpath):
+                if self.ident is not None and TokenFile._ident(self.path) == self.ident:
+                    self.delete()
 
         threading.Thread(target=run).start()
 
@@ -252,6 +269,10 @@ class CounterToken(Token, FileSystemEventHandler):
 
         for path in self.path.glob("*.token"):
             tf = old_cache.get(path.name)
+            if tf is not None and tf.ident != TokenFile._ident(path):
+                # Another file with the same name (the token was given back
+                # and taken again for the same job): read it and watch its job
+                tf = None
             if tf is None:
                 try:
                     tf = TokenFile(path)
